@@ -275,10 +275,15 @@ func init() {
 			}
 		}
 		// recursive message types (from fresh schemas), if any
+		recursive := 0
 		for _, k := range u.Order {
 			ti := u.Types[k]
+			if recursive >= 8 {
+				break // the model costs about a minute and 8 GB per megabyte-sized row: eight recursive types are enough
+			}
 			for _, f := range ti.S.Msgs[ti.MI].Fields {
 				if f.Msg == ti.MI && f.Label != LRepeated && !ti.S.hasOpaque(ti.MI) {
+					recursive++
 					targets = append(targets, ti)
 					// 10 000-deep chain of sub-messages in field f
 					for _, depth := range []int{100, 10000} {
